@@ -10,6 +10,7 @@ package main
 
 import (
 	"fmt"
+	"os"
 	"go/ast"
 	"go/token"
 	"path/filepath"
@@ -514,6 +515,40 @@ func genPersist(hl, mb *pkgFiles, hdr, out string) {
 	b.WriteString("/-- `HandleTranOldPostNews`: what happens when `PostMessageBoard` reports an error\n")
 	b.WriteString("    (`returns` = the handler ends there: nothing is announced or acknowledged) -/\n")
 	fmt.Fprintf(&b, "def postErrorHandling : String := %s\n\n", leanStr(postErr))
+	// ---- the server binary's own start-up code (cmd/mobius-hotline-server): file-mutating os calls it makes itself
+	repo := "/repo"
+	if len(os.Args) > 1 {
+		repo = os.Args[1]
+	}
+	b.WriteString("/-- File-mutating os.* calls made by the code of cmd/mobius-hotline-server itself (start-up path before and around the\n")
+	b.WriteString("    loaders): (function, [(call, first argument, second argument, context)]).  Only `-init` may create files. -/\n")
+	b.WriteString("def mainMutations : List (String × List (String × String × String × String)) := [\n")
+	if st, err := os.Stat(filepath.Join(repo, "cmd", "mobius-hotline-server")); err == nil && st.IsDir() {
+		mp := parseDir(filepath.Join(repo, "cmd", "mobius-hotline-server"))
+		var mrows []row
+		for _, fd := range persistSortedFuncs(mp) {
+			cs := persistCallsOf(fd, persistConsts(mp))
+			if len(cs) > 0 {
+				mrows = append(mrows, row{persistFuncName("main", fd), cs})
+			}
+		}
+		sort.Slice(mrows, func(i, j int) bool { return mrows[i].name < mrows[j].name })
+		for i, r := range mrows {
+			fmt.Fprintf(&b, "  (%s, [", leanStr(r.name))
+			for j, c := range r.calls {
+				if j > 0 {
+					b.WriteString(",\n     ")
+				}
+				fmt.Fprintf(&b, "(%s, %s, %s, %s)", leanStr(c.fn), leanStr(c.a1), leanStr(c.a2), leanStr(c.ctx))
+			}
+			b.WriteString("])")
+			if i < len(mrows)-1 {
+				b.WriteString(",")
+			}
+			b.WriteString("\n")
+		}
+	}
+	b.WriteString("]\n\n")
 	b.WriteString("end Mobius.Generated\n")
 	writeIfChanged(filepath.Join(out, "Persist.lean"), b.String())
 }
